@@ -167,13 +167,21 @@ def modeFor (cfg : NodeCfg) (req : AllocReq) (d : Nat) : SplitMode :=
     else .value
   else .value
 
+/-- `resourceNamesByNUMA`: the names occurring in some `totalAvailable[node]`.  That list is
+    `SubtractWithNonNegativeResult(capacity, allocated)`, which also carries (with zero) every name
+    that only the ledger entry of the node has — so a name no NUMA node declares becomes "declared"
+    (with nothing available) once some pod has recorded it on a node of the topology. -/
+def declaredDim (cfg : NodeCfg) (L : Ledger) (d : Nat) : Bool :=
+  cfg.caps.any (fun e => e.1 % 16 == d) ||
+  L.res.any (fun e => e.1 % 16 == d && cfg.numaNodes.contains (e.1 / 16))
+
 /-- `tryBestToDistributeEvenly` over all requested resources: `none` = some reason was produced. -/
 def splitAll (cfg : NodeCfg) (L : Ledger) (req : AllocReq) (hint : List Nat) : Option (List (Nat × Int)) :=
   req.reqs.foldl (fun acc r =>
     match acc with
     | none => none
     | some cells =>
-      let declared := cfg.caps.any (fun e => e.1 % 16 == r.1)
+      let declared := declaredDim cfg L r.1
       let o := numaSplit (modeFor cfg req r.1) declared (freeFor cfg L req r.1) hint r.2
       if o.failed then none else some (cells ++ o.allocs.map (fun a => (a.1 * 16 + r.1, a.2)))) (some [])
 
@@ -188,35 +196,41 @@ def NodeCfg.pickCtx (cfg : NodeCfg) (excl : Nat) : PickCtx :=
 def allocatedInfos (cfg : NodeCfg) (L : Ledger) : List CpuI :=
   L.cpus.map fun e => { topoInfo (cfg.pickCtx 0) e.1 with cpu := e.1, ref := e.2.ref, excl := e.2.excl }
 
+/-- the CPUs `allocateCPUSet` picks from: `GetAvailableCPUs`, filtered when a bind policy is required. -/
+def availFor (cfg : NodeCfg) (L : Ledger) (req : AllocReq) : List Nat :=
+  if req.required then filterByPolicy cfg req.bind (cfg.availCPUs L) else cfg.availCPUs L
+
+/-- one round of the loop over the NUMA nodes of the allocation. -/
+def numaRound (cfg : NodeCfg) (ctx : PickCtx) (full : Bool) (allocated : List CpuI) (avail : List Nat)
+    (acc : Option (List Nat)) (nq : Nat × Int) : Option (List Nat) :=
+  match acc with
+  | none => none
+  | some res =>
+    let inNode := avail.filter (fun c => cfg.nodeOf c == nq.1)
+    let want := Int.tdiv nq.2 1000
+    let n : Int := if want < (inNode.length : Int) then want else (inNode.length : Int)
+    match takePreferredCPUs ctx full inNode [] allocated n with
+    | none => none
+    | some cpus => some (unionNat res cpus)
+
+/-- the CPUs taken: per NUMA node of the allocation (then the count must be exact), or in one go. -/
+def takenCPUs (cfg : NodeCfg) (ctx : PickCtx) (full : Bool) (allocated : List CpuI) (avail : List Nat)
+    (ncpu : Int) (numaNodes : List (Nat × Int)) : Option (List Nat) :=
+  if !numaNodes.isEmpty then
+    match numaNodes.foldl (numaRound cfg ctx full allocated avail) (some []) with
+    | none => none
+    | some res => if ncpu - (res.length : Int) ≠ 0 then none else some res
+  else if ncpu > 0 then takePreferredCPUs ctx full avail [] allocated ncpu
+  else some []
+
 /-- resource_manager.go `allocateCPUSet`; `numaNodes` = (node, cpu milli) of the NUMA allocation,
     sorted by node id.  `none` = error. -/
 def allocateCPUSet (cfg : NodeCfg) (L : Ledger) (req : AllocReq) (numaNodes : List (Nat × Int)) :
     Option (List Nat) :=
-  let ctx := cfg.pickCtx req.excl
-  let allocated := allocatedInfos cfg L
-  let avail0 := cfg.availCPUs L
-  let avail := if req.required then filterByPolicy cfg req.bind avail0 else avail0
-  if (avail.length : Int) < req.ncpu then none
+  if ((availFor cfg L req).length : Int) < req.ncpu then none
   else
-    let full := req.bind == 1
-    let taken : Option (List Nat) :=
-      if !numaNodes.isEmpty then
-        let r := numaNodes.foldl (fun acc nq =>
-          match acc with
-          | none => none
-          | some res =>
-            let inNode := avail.filter (fun c => cfg.nodeOf c == nq.1)
-            let want := Int.tdiv nq.2 1000
-            let n : Int := if want < (inNode.length : Int) then want else (inNode.length : Int)
-            match takePreferredCPUs ctx full inNode [] allocated n with
-            | none => none
-            | some cpus => some (unionNat res cpus)) (some [])
-        match r with
-        | none => none
-        | some res => if req.ncpu - (res.length : Int) ≠ 0 then none else some res
-      else if req.ncpu > 0 then takePreferredCPUs ctx full avail [] allocated req.ncpu
-      else some []
-    match taken with
+    match takenCPUs cfg (cfg.pickCtx req.excl) (req.bind == 1) (allocatedInfos cfg L) (availFor cfg L req)
+        req.ncpu numaNodes with
     | none => none
     | some res =>
       if req.required && !satisfiedPolicy req.bind cfg.coreOf cfg.cpc res then none else some res
